@@ -25,7 +25,7 @@ ASSUMPTIONS = ["conventions of the library's documentation and relabel_test: a f
                "lists are transparent (elements are children of the enclosing node); node: count 1+sum, distance max(1, children+1), weighted = sum + distance",
                "tuples are transparent containers like lists (they cannot carry labels themselves; the nodes inside them must)"]
 
-FEAT = features(list=4, annlist=4, union=1, tuple=1, interval=0, cls=8, refined=2, nested=1, standalone=1, dependent=1, base_in_list=1, concrete_start=1, nested_list=1, self_ref=1, flaky=1, deep_chain=1, falsy=1, future_annotations=1)
+FEAT = features(list=4, annlist=4, union=1, tuple=1, interval=0, cls=8, refined=2, nested=1, standalone=1, dependent=1, base_in_list=1, concrete_start=1, nested_list=1, self_ref=1, flaky=1, deep_chain=1, falsy=1, future_annotations=1, inherited_ctor=1)
 
 
 def budget(tier):
